@@ -639,10 +639,15 @@ func compareDisplay(t *simterm.Term, exp [][]expCell) string {
 	if t.Rows != len(exp) || (len(exp) > 0 && t.Cols != len(exp[0])) {
 		return fmt.Sprintf("terminal is %dx%d, application drew for %dx%d", t.Rows, t.Cols, len(exp), len(exp[0]))
 	}
+	return compareGrid(t.Cell, exp)
+}
+
+// compareGrid compares any grid of terminal cells with the expected display.
+func compareGrid(cellAt func(r, c int) simterm.Cell, exp [][]expCell) string {
 	for r := range exp {
 		for c := range exp[r] {
 			e := exp[r][c]
-			tc := t.Cell(r, c)
+			tc := cellAt(r, c)
 			if tc.Unspec {
 				return fmt.Sprintf("cell (row %d, col %d): what the terminal shows here is terminal-specific (half of an overwritten wide glyph, or a glyph that did not fit); expected %q", r, c, e.g)
 			}
